@@ -326,6 +326,17 @@ func (i *InsertStatement) Format(opts FormatOptions) string {
 		sb.WriteString(onConflictSQL(i.OnConflict))
 	}
 
+	if i.OnDuplicateKey != nil && len(i.OnDuplicateKey.Updates) > 0 {
+		sb.WriteString(f.clauseSep())
+		sb.WriteString(f.kw("ON DUPLICATE KEY UPDATE"))
+		sb.WriteString(" ")
+		upds := make([]string, len(i.OnDuplicateKey.Updates))
+		for idx, u := range i.OnDuplicateKey.Updates {
+			upds[idx] = exprSQL(u.Column) + " = " + exprSQL(u.Value)
+		}
+		sb.WriteString(strings.Join(upds, ", "))
+	}
+
 	if len(i.Returning) > 0 {
 		sb.WriteString(f.clauseSep())
 		sb.WriteString(f.kw("RETURNING"))
